@@ -158,6 +158,22 @@ Fixpoint pump (cfg : rcfg) (s : rstate) (p : Z) (k : nat) : rstate * rout :=
 Definition stale_offset (s : rstate) (p d : Z) : Z :=
   match pget p (cli s) with Some n => n - 1 - Z.abs d | None => d end.
 
+(* a straggler that librdkafka had fetched under the previous assignment and delivers after the re-assignment
+   ("after assignments change there can be a brief period where events arrive for the formerly-assigned partitions",
+   recoveryconsumer.go:271): offset n+1+|d| where n is the client's position, i.e. at least 2 ahead of the last
+   delivered record.  ORACLE restriction: it is delivered only if that offset is still inside the active window
+   (<= to) and is not a multiple of updateRequestEvery; otherwise the op delivers nothing.  (A straggler ON the
+   broadcast grid makes the CURRENT code broadcast a progress point ahead of what was recovered, and a straggler beyond
+   to makes it close the request early - both lose records if a crash / re-assignment follows; reported separately,
+   reachable through RawRec.) *)
+Definition ahead_step (cfg : rcfg) (s : rstate) (p d : Z) : rstate * rout :=
+  match pget p (cli s), pget p (active s) with
+  | Some n, Some (f, to) =>
+      let o := n + 1 + Z.abs d in
+      if (o <=? to) && negb (o mod c_every cfg =? 0) then rec_step cfg s p o else (s, out_nil)
+  | _, _ => (s, out_nil)
+  end.
+
 (* ---- processError (recoveryconsumer.go:207-251) ---- *)
 Definition low_of (lows : pmap Z) (p : Z) : Z := match pget p lows with Some l => l | None => 0 end.
 
@@ -196,6 +212,8 @@ Inductive msg :=
 Inductive rop :=
 | Pump (p : Z) (k : nat)           (* the client delivers its next k records of p *)
 | Stale (p d : Z)                  (* a record below the client's position arrives again *)
+| Ahead (p d : Z)                  (* a straggler of the previous assignment: a record AHEAD of the client's position,
+                                      inside the active window and off the progress-broadcast grid (see ahead_step) *)
 | RawRec (p o : Z)                 (* an arbitrary record on the recovery client *)
 | MainRec (p o : Z)                (* a record on the MAIN consumer *)
 | KErr (code : Z) (wmerr : bool) (lows : pmap Z)
@@ -221,6 +239,7 @@ Definition rstep (cfg : rcfg) (s : rstate) (op : rop) : rstate * rout :=
   match op with
   | Pump p k => pump cfg s p k
   | Stale p d => rec_step cfg s p (stale_offset s p d)
+  | Ahead p d => ahead_step cfg s p d
   | RawRec p o => rec_step cfg s p o
   | MainRec p o =>                                              (* kafkaconsumer.go:219-224 *)
       (s, {| o_emits := [(p, o, false)]; o_calls := []; o_sent := []; o_err := false; o_acks := 0; o_waits := [] |})
